@@ -347,5 +347,79 @@ theorem build_mapVal (φ : V → V') (ψ : R → R') (h0 : φ 0 = 0) (hψ : ψ 0
 
 end build
 
+/-! ### hypotheses of the end-to-end theorems along `CRS.mapVal` -/
+section crs
+
+theorem ncols_mapVal (φ : V → V') (A : CRS V) : (A.mapVal φ).ncols = A.ncols := rfl
+
+theorem wf_mapVal (φ : V → V') (A : CRS V) (h : A.WF) : (A.mapVal φ).WF := by
+  intro r hr cv hcv
+  have hr' : r ∈ (A.rows.map (fun r => r.map (fun cv => (cv.1, φ cv.2)))).toList := hr
+  rw [Array.toList_map, List.mem_map] at hr'
+  obtain ⟨r0, hr0, rfl⟩ := hr'
+  rw [List.mem_map] at hcv
+  obtain ⟨cv0, hcv0, rfl⟩ := hcv
+  exact h r0 hr0 cv0 hcv0
+
+theorem nodup_mapVal [Zero V] [Zero V'] (φ : V → V') (A : CRS V) (h : ∀ i, ((A.row i).map (·.1)).Nodup) :
+    ∀ i, (((A.mapVal φ).row i).map (·.1)).Nodup := by
+  intro i
+  rw [row_mapVal, List.map_map]
+  exact h i
+
+theorem get_mapVal [Zero V] [Add V] [Zero V'] [Add V'] (φ : V → V') (h0 : φ 0 = 0)
+    (hadd : ∀ a b, φ (a + b) = φ a + φ b) (A : CRS V) (i j : Nat) : (A.mapVal φ).get i j = φ (A.get i j) := by
+  unfold CRS.get
+  rw [row_mapVal]
+  unfold rowGet
+  rw [List.foldr_map]
+  have := List.foldr_hom φ (g₁ := fun (cv : Nat × V) s => if cv.1 = j then cv.2 + s else s)
+    (g₂ := fun (cv : Nat × V) s => if cv.1 = j then φ cv.2 + s else s) (l := A.row i) (init := 0)
+    (by intro x y; by_cases hx : x.1 = j
+        · simp only [hx, if_true]; rw [hadd]
+        · simp only [hx, if_false])
+  rw [h0] at this
+  exact this
+
+theorem foldl_inv_mem {α β : Type} (Q : β → Prop) (f : β → α → β) (l : List α) (b : β) (hb : Q b)
+    (h : ∀ b, ∀ a ∈ l, Q b → Q (f b a)) : Q (l.foldl f b) := by
+  induction l generalizing b with
+  | nil => exact hb
+  | cons a t ih =>
+    simp only [List.foldl_cons]
+    exact ih _ (h b a List.mem_cons_self hb) (fun b a ha => h b a (List.mem_cons_of_mem _ ha))
+
+/-- every diagonal entry the constructor stores is `0` or a stored value of the matrix -/
+theorem build_D_good [Zero V] [Zero R] (G : V → Prop) (g0 : G 0) (isZero : V → Bool) (A : CRS V) (perm : Array Nat)
+    (hA : ∀ i, ∀ cv ∈ A.row i, G cv.2) : ∀ i, G ((build (R := R) isZero A perm).D.getD i 0) := by
+  unfold build
+  show ∀ i, G ((fillLUD isZero A A.nrows _ _ _).2.2.getD i 0)
+  unfold fillLUD
+  apply foldl_inv (fun X : Array V × Array V × Array V => ∀ i, G (X.2.2.getD i 0))
+  · intro i
+    show G ((Array.replicate A.nrows (0 : V)).getD i 0)
+    unfold Array.getD
+    split
+    · simp only [Array.getInternal_eq_getElem, Array.getElem_replicate]; exact g0
+    · exact g0
+  · intro X i hX
+    apply foldl_inv_mem (fun X : Array V × Array V × Array V => ∀ i, G (X.2.2.getD i 0)) _ _ _ hX
+    intro X cv hcv hX
+    simp only
+    split
+    · split
+      · exact hX
+      · split
+        · intro i'
+          show G ((X.2.2.setIfInBounds _ cv.2).getD i' 0)
+          rw [Arr2.getD_setIfInBounds]
+          split
+          · exact hA i cv hcv
+          · exact hX i'
+        · exact hX
+    · exact hX
+
+end crs
+
 end Skyline
 end Amgcl
